@@ -259,7 +259,13 @@ function stringifyWithBigInt(value: unknown): string {
 function deduplicateErrors(errors: DecodeError[]): DecodeError[] {
   const seen = new Set<string>();
   return errors.filter((err) => {
-    const key = stringifyWithBigInt(err);
+    let key: string;
+    try {
+      key = stringifyWithBigInt(err);
+    } catch {
+      // a received value JSON cannot serialise (e.g. Date.prototype, a cyclic object): keep the error
+      return true;
+    }
     if (seen.has(key)) return false;
     seen.add(key);
     return true;
